@@ -59,6 +59,7 @@ func WriteWire(w *spec.WCase, root string, env Env) (*Layout, error) {
 
 func pkgFuncsSource(c *spec.Case) string {
 	var sb strings.Builder
+
 	for _, n := range c.PkgNames {
 		fmt.Fprintf(&sb, "var %s = 0\n\nfunc init() { _ = %s }\n\n", n, n)
 	}
@@ -118,7 +119,17 @@ func wireElemBare(w *spec.WCase, e *spec.WElem) string {
 		}
 		return "wire.NewSet(" + strings.Join(parts, ", ") + ")"
 	case "bind":
-		return fmt.Sprintf("wire.Bind(new(%s), new(%s))", c.Expr(e.Iface, ""), c.Expr(e.Impl, ""))
+		impl := c.Expr(e.Impl, "")
+		if e.ImplAlias != "" {
+			// only this binding spells the implementation through the alias
+			if st := c.StructOf(e.Impl); st != nil {
+				impl = strings.Replace(impl, st.Name, e.ImplAlias, 1)
+			}
+		}
+		if e.NilPtr {
+			return fmt.Sprintf("wire.Bind((*%s)(nil), (*%s)(nil))", c.Expr(e.Iface, ""), impl)
+		}
+		return fmt.Sprintf("wire.Bind(new(%s), new(%s))", c.Expr(e.Iface, ""), impl)
 	case "value":
 		if e.VarPkg != "" {
 			x := c.Ext(e.VarPkg)
@@ -130,6 +141,9 @@ func wireElemBare(w *spec.WCase, e *spec.WElem) string {
 		}
 		return "wire.Value(" + e.Var + ")"
 	case "ivalue":
+		if e.NilPtr {
+			return fmt.Sprintf("wire.InterfaceValue((*%s)(nil), %s)", c.Expr(e.Iface, ""), e.Var)
+		}
 		return fmt.Sprintf("wire.InterfaceValue(new(%s), %s)", c.Expr(e.Iface, ""), e.Var)
 	case "struct":
 		var q []string
@@ -148,6 +162,9 @@ func wireElemBare(w *spec.WCase, e *spec.WElem) string {
 		t := c.Expr(e.Struct, "")
 		if e.Ptr {
 			t = "*" + t
+		}
+		if e.NilPtr {
+			return fmt.Sprintf("wire.FieldsOf((*%s)(nil), %s)", t, strings.Join(q, ", "))
 		}
 		return fmt.Sprintf("wire.FieldsOf(new(%s), %s)", t, strings.Join(q, ", "))
 	}
